@@ -53,7 +53,7 @@ const (
 var DefaultVersions = map[protocol.ApiKey]VRange{
 	protocol.Produce: {0, 7}, protocol.Fetch: {0, 10}, protocol.ListOffsets: {0, 5}, protocol.Metadata: {0, 8},
 	protocol.OffsetCommit: {0, 7}, protocol.OffsetFetch: {0, 5}, protocol.FindCoordinator: {0, 2}, protocol.JoinGroup: {0, 5},
-	protocol.Heartbeat: {0, 3}, protocol.LeaveGroup: {0, 2}, protocol.SyncGroup: {0, 3}, protocol.DescribeGroups: {0, 4},
+	protocol.Heartbeat: {0, 3}, protocol.LeaveGroup: {0, 3}, protocol.SyncGroup: {0, 3}, protocol.DescribeGroups: {0, 4},
 	protocol.ListGroups: {0, 2}, protocol.SaslHandshake: {0, 1}, protocol.ApiVersions: {0, 2}, protocol.CreateTopics: {0, 4},
 	protocol.DeleteTopics: {0, 3}, protocol.SaslAuthenticate: {0, 1},
 }
@@ -187,7 +187,14 @@ func (c *Cluster) respond(e *Entry, mode string) {
 		if isErr {
 			res.ErrorCode = code
 		} else {
-			res.ErrorCode = c.leave(e, req.GroupID, req.MemberID)
+			if len(req.Members) > 0 {
+				for _, m := range req.Members {
+					ec := c.leave(e, req.GroupID, m.MemberID)
+					res.Members = append(res.Members, leavegroup.ResponseMember{MemberID: m.MemberID, ErrorCode: ec})
+				}
+			} else {
+				res.ErrorCode = c.leave(e, req.GroupID, req.MemberID)
+			}
 		}
 		c.writeMsg(e, res)
 
